@@ -22,7 +22,7 @@ while read -r NAME PROPS; do
     SUITE=$(cd $WT && CARGO_TARGET_DIR=$TGTD cargo test --workspace --no-fail-fast --offline 2>&1 | awk '/^test result/ {p+=$4; f+=$6} /^error(\[|:)/ {e=1} END {print "passed=" p ",failed=" f ",builderror=" e+0}')
   fi
   mkdir -p $ROOT/.build && cp /verif/known_findings.json $ROOT/ && cp /verif/.build/libhashseed.so $ROOT/.build/ 2>/dev/null
-  cp -r /verif/mc $MC; sed -i "s#/repo/#$WT/#g" $MC/Cargo.toml $MC/src/*.rs $MC/src/*/*.rs; rm -rf $MC/.cargo
+  cp -r /verif/mc $MC; sed -i "s#/repo/#$WT/#g" $MC/Cargo.toml $MC/miri12/Cargo.toml $MC/src/*.rs $MC/src/*/*.rs; rm -rf $MC/.cargo
   if ! ( cd $MC && CARGO_TARGET_DIR=$TGT cargo build --release --offline >/tmp/mut$S-build.log 2>&1 ); then echo -e "$NAME\t$SUITE\tHARNESS-BUILD-FAILED" >> $OUT; continue; fi
   LINE="$NAME\t$SUITE"
   for id in ${PROPS//,/ }; do
